@@ -3,6 +3,7 @@ CONSTANTS
   Events <- MCEvents
   RegEvents <- MCReg
   Prios <- MCPrios
+  Spawns <- NoSpawns
   MaxListeners = 3
   Depth = 0
 INVARIANT DispatchCorrect
